@@ -131,13 +131,16 @@ func %(F)s(sink func(int)) {
 	}
 }
 """ % dict(locals(), n=where)
+    lined, linefn = M.new("line-directive-file@" + where, lower=True) + ".y", M.new("func-under-line-directive@" + where)
+    extra = ("package %s\n\n// a doc comment mentioning %s\n//line %s:40\nfunc %s(n int) int {\n\tx := n * 3\n\tx += 2\n\tif x < 2 {\n\t\treturn 1\n\t}\n\treturn %s(n-1)*3 + x\n}\n" % (pkgname, linefn, lined, linefn, linefn))
+    src = src.replace("\tsink(%s + %s.%s" % (vE, vU, fU), "\tsink(%s(len(anon%s.%s) + 2))\n\tsink(%s + %s.%s" % (linefn, where, aU, vE, vU, fU))
     hdr = M.new("asm-header-file@" + where, lower=True) + ".h"
     hmac = M.new("asm-header-macro@" + where, exported=True)
     asm = ('#include "textflag.h"\n#include "go_asm.h"\n#include "%s"\n\n'
            "TEXT ·%s(SB),NOSPLIT,$0-16\n\tMOVQ x+0(FP), AX\n\tADDQ $const_%s, AX\n\tADDQ $%s, AX\n\tMOVQ AX, ret+8(FP)\n\tRET\n\n"
            "TEXT ·%s(SB),NOSPLIT,$0-16\n\tMOVQ x+0(FP), AX\n\tADDQ AX, AX\n\tMOVQ AX, ret+8(FP)\n\tRET\n" % (hdr, asmF, asmC, hmac, asmL))
     header = "#define %s 11\n" % hmac
-    return src, F, asm, hdr, header
+    return src, F, asm, hdr, header, extra
 
 def gen_program():
     M = Markers()
@@ -146,15 +149,19 @@ def gen_program():
     d1, d2, d3 = M.new("directory", lower=True), M.new("directory", lower=True), M.new("directory-with.dot", lower=True)
     p1, p2 = M.new("package-name", lower=True), M.new("package-name", lower=True)
     files = {}
-    srcm, Fm, asmm, hm, hdrm = gen_pkg(M, "main", "main")
-    src1, F1, asm1, h1, hdr1 = gen_pkg(M, p1, "dep")
-    src2, F2, asm2, h2, hdr2 = gen_pkg(M, p2, "deepdep")
+    srcm, Fm, asmm, hm, hdrm, exm = gen_pkg(M, "main", "main")
+    src1, F1, asm1, h1, hdr1, ex1 = gen_pkg(M, p1, "dep")
+    src2, F2, asm2, h2, hdr2, ex2 = gen_pkg(M, p2, "deepdep")
+    xm, x1, x2 = M.new("go-file-second", lower=True), M.new("go-file-second", lower=True), M.new("go-file-second", lower=True)
     fmain, f1 = M.new("go-file", lower=True), M.new("go-file", lower=True)
     am, a1, a2 = M.new("asm-file", lower=True), M.new("asm-file", lower=True), M.new("asm-file", lower=True)
     ip1 = "%s/%s/%s" % (modpath, d1, d2)
     ip2 = "%s/%s/%s.x/%s" % (modpath, d1, d3, p2)
     files["%s.go" % fmain] = ("package main\n\nimport (\n\t\"os\"\n\t\"strconv\"\n\n\tl1 \"%s\"\n\t\"%s\"\n)\n\nvar total int\n\nfunc sink(n int) { total += n }\n\n"
                               "func main() {\n\t%s(sink)\n\tl1.%s(sink)\n\t%s.%s(sink)\n\tos.Stdout.WriteString(strconv.Itoa(total) + \"\\n\")\n\tprintln(len(os.Args))\n}\n" % (ip1, ip2, Fm, F1, p2, F2)) + srcm
+    files["zz%s.go" % xm] = exm
+    files["%s/%s/zz%s.go" % (d1, d2, x1)] = ex1
+    files["%s/%s.x/%s/zz%s.go" % (d1, d3, p2, x2)] = ex2
     files["%s_amd64.s" % am] = asmm
     files[hm] = hdrm
     files["%s/%s/%s.go" % (d1, d2, f1)] = "package %s\n" % p1 + src1
